@@ -277,6 +277,8 @@ pub struct Client {
     pub received: Vec<u8>,
     pub eof: bool,
     pub reset: bool,
+    /// fault: once `received` has reached this many bytes the paced reader stops reading for this long, once
+    pub stall: Option<(usize, Ns)>,
 }
 
 pub enum ReadOutcome {
@@ -289,12 +291,12 @@ pub enum ReadOutcome {
 impl Client {
     pub async fn connect(addr: &str, cfg: ConnCfg) -> io::Result<Client> {
         let ep = connect(addr, cfg).await?;
-        Ok(Client { ep, buf: Vec::new(), received: Vec::new(), eof: false, reset: false })
+        Ok(Client { ep, buf: Vec::new(), received: Vec::new(), eof: false, reset: false, stall: None })
     }
     /// connect without waiting for the server's accept (as a kernel backlog would)
     pub fn connect_now(addr: &str, cfg: ConnCfg) -> Client {
         let ep = connect(addr, cfg).immediate();
-        Client { ep, buf: Vec::new(), received: Vec::new(), eof: false, reset: false }
+        Client { ep, buf: Vec::new(), received: Vec::new(), eof: false, reset: false, stall: None }
     }
     pub fn conn(&self) -> usize {
         self.ep.conn
@@ -359,6 +361,13 @@ impl Client {
             }
             match self.fill(max, timeout).await {
                 ReadOutcome::Data(_) => {
+                    if let Some((after, d)) = self.stall {
+                        if self.received.len() >= after {
+                            self.stall = None;
+                            simcore::with(|w| w.count("fault.reader_stalled_for_seconds"));
+                            sleep(d).await;
+                        }
+                    }
                     if pause > 0 {
                         sleep(pause).await;
                     }
